@@ -105,6 +105,15 @@ def check_expose_once(ctx, f):
             return False
         return any(".visible" in "".join(b.origin(l_, pr_)[1]) for a_ in t_.get("args", []) for l_, pr_ in b.provenance(a_, through_calls=True).places)
     vis_true = cfg.cond_edges(b, atom_call=lambda t_: (norm_fn(t_.get("fn")) or "").split("::")[-1] == "eq" and vis_read(t_))
+    # `matches!(visible.get(pos), Some(true))`: a switch on the payload of the Option<bool> a read of the visibility index returned
+    for sb_, sw_ in b.switches():
+        src_ = b.bool_operand_source(sw_["op"])
+        if src_ and src_["kind"] == "place" and src_["origin"][1] and src_["origin"][1][-1] == ".0" and "@Some" in src_["origin"][1]:
+            d_ = b.single_def(src_["origin"][0])
+            if d_ and d_[1] == "t" and vis_read(d_[2]):
+                seeds_ = [(sb_, sw_["otherwise"])] if not src_["negated"] else [(sb_, tb_) for v_, tb_ in sw_["targets"] if v_ == "0"]
+                # the result of `matches!` is a bool temporary tested later: follow it
+                vis_true = list(vis_true) + seeds_ + list(cfg.cond_edges(b, seed_edges=seeds_))
     for k, (bi, t) in util.ordinal_keys(sites, lambda it: "add_succ_with_undo|exposed op is visible"):
         ok = any(b.edges_dominate([e], bi) for e in vis_true)
         ctx.ob("W7", k, ok, t["sp"], "behind a test of the visibility index" if ok else
